@@ -89,6 +89,7 @@ raw_bvf!(u16, 2, 16);
 raw_bvf!(u64, 1, 64);
 raw_bvf!(u64, 2, 64);
 raw_bvf!(u128, 1, 128);
+raw_bvf!(u8, 16, 8);      // byte storage spanning a whole u128 chunk (seed C12-d: slice get_int narrow -> u128)
 
 /// Bvd with 0..=2 allocated words and any length up to the allocation (spare capacity included)
 impl Raw for Bvd {
